@@ -133,8 +133,10 @@ def allNames (ms : Masters) : List String := dedupFirst (ms.flatMap GlyphSet.nam
 abbrev Cache := List (String × List (Q × Glyph))
 
 /-- the glyph sets being filtered together with what the Instantiator holds:
-    `pristine = some layers` while `instantiator.source_layers` still are the untouched source layers (the pre-processor
-    works on copies), `none` once `replace_source_layers(self.glyphSets)` has made them the live glyph sets;
+    `pristine = some layers` while `instantiator.source_layers` are other objects than the glyph sets being filtered,
+    `none` once `replace_source_layers(self.glyphSets)` has made them the live glyph sets.  Since /repo fix 61a81a2 the
+    pre-processor calls `_update_instantiator()` right after making its copies: the pre-processors below start with `none`
+    (before the fix the Instantiator kept reading the caller's layers until the first filter reported a change);
     `cache` = `glyph_mutators`, emptied by every `replace_source_layers` -/
 structure St where
   ms : Masters
@@ -542,7 +544,7 @@ def curvesStep (cfg : Cfg) (s : St) : Except GErr (Option Masters × St) :=
 
 /-- `BaseInterpolatablePreProcessor.__init__` (skipExportGlyphs) + `TTFInterpolatablePreProcessor.process` -/
 def preprocessTTF (cfg : Cfg) (ms : Masters) : Except GErr PreOut :=
-  match skipI cfg.inst cfg.skip ⟨ms, some ms, [], cfg.orders⟩ with
+  match skipI cfg.inst cfg.skip ⟨ms, none, [], cfg.orders⟩ with
   | .error e => .error e
   | .ok s =>
   match runCustom cfg true s with
@@ -563,7 +565,7 @@ def preprocessTTF (cfg : Cfg) (ms : Masters) : Except GErr PreOut :=
 
 /-- `OTFInterpolatablePreProcessor`: custom pre-filters, `DecomposeComponentsIFilter()`, custom post-filters -/
 def preprocessOTF (cfg : Cfg) (ms : Masters) : Except GErr PreOut :=
-  match skipI cfg.inst cfg.skip ⟨ms, some ms, [], cfg.orders⟩ with
+  match skipI cfg.inst cfg.skip ⟨ms, none, [], cfg.orders⟩ with
   | .error e => .error e
   | .ok s =>
   match runCustom cfg true s with
